@@ -28,6 +28,12 @@ def atom(s: str) -> z3.ExprRef:
     return _atom_consts[s]
 
 
+# congruence axioms of uninterpreted matrix functions (vt/stubs/jnp.py: mat_key): part of every obligation's hypotheses of
+# the contract case they were generated in (call and ensures phases alike); reset at the start of each case
+EXTRA_AXIOMS: list = []
+MAT_SEEN: list = []
+
+
 def atom_axioms() -> list:
     cs = list(_atom_consts.values())
     return [z3.Distinct(*cs)] if len(cs) > 1 else []
